@@ -61,6 +61,8 @@ def run_unit(A, unit, rep, tier):
     jobs = [(m, eps[m], None) for m in sorted(eps)]
     for pname, fset in setters(A, cls).items():
         jobs.append((pname + ".setter", fset, fset))
+    same_kind = {}
+    muts_, reads_ = set(A.mutators(cls)), set(A.readers(cls))
     for m, f, func in jobs:
         for rho in ("root", "nested"):
             if func is not None and rho == "nested":
@@ -117,6 +119,19 @@ def run_unit(A, unit, rep, tier):
                     rep.ok("C10.b", f"C10.b {g.label}: suspend counter balanced at both exits")
                 else:
                     rep.fail("C10.b", norm_key("C10.b", f.qualname, bad[2]), f"{f.qualname}: the tree's suspend counter is {bad[1]:+d} when the operation {bad[2]}; later loads/saves are skipped", [], g.label)
+                # (c') facts for the symmetric-deadlock rule: a mutator that reads an ARGUMENT (possibly another synced
+                #      collection) while holding its own collection lock, and a reader that takes a collection lock
+                if func is None and m in muts_:
+                    for n in live(g):
+                        if n.kind == "call_unknown" and n["recv"] is not None and n["recv"].kind == "param" and n["method"] in FOREIGN_READS \
+                                and any("col:root:T" in held_ids(s_) for s_ in st.get(n.id, [()])):
+                            rep.facts.append(["argread", f.qualname, n.stmt])
+                            break
+                if func is None and m in reads_:
+                    for n in locks:
+                        if n["op"] == "+" and lock_id(n["lock"]).startswith("col:") and any(all(t_[0].startswith("col:") for t_ in s_) for s_ in st.get(n.id, [()])):
+                            rep.facts.append(["readlock", f.qualname, n.func, n.stmt])
+                            break
                 # (c) lock-order edges
                 for n in locks:
                     if n["op"] != "+":
@@ -128,6 +143,24 @@ def run_unit(A, unit, rep, tier):
                         for tok in s:
                             if tok[0] != inner:
                                 rep.facts.append(["edge", kindof(tok[0]), kindof(inner), tok[1], n.func, f.qualname])
+                                gate = any(not t2[0].startswith("col:") for t2 in s[: s.index(tok)])  # a class-wide lock taken first serialises both threads
+                                if tok[0].startswith("col:") and inner.startswith("col:") and tok[0].split(":", 2)[2] != inner.split(":", 2)[2] and not gate:
+                                    # two locks of the same kind (the collection locks of two different trees) nested:
+                                    # the same code running with the roles exchanged takes them in the opposite order
+                                    key = norm_key("C10.c", "col->col", f.qualname, n.func)
+                                    if key not in same_kind:
+                                        same_kind[key] = (n, tok, g)
+
+    for key, (n, tok, g) in sorted(same_kind.items()):
+        rep.fail("C10.c", key,
+                 f"{n.func}: `{n.stmt}` acquires the collection lock of another collection while the collection lock taken at {tok[1]} is held: the same operation running on another thread with the two "
+                 "collections exchanged (a.update(b) / b.update(a)) takes the two locks in the opposite order and both threads block forever",
+                 g.witness(g.path(g.entry, [n.id]) or []), g.label)
+    if not same_kind:
+        rep.ok("C10.c", f"C10.c {cls.name}: no collection lock is acquired while the collection lock of another tree is held")
+
+
+FOREIGN_READS = {"items", "keys", "values", "get", "__getitem__", "__iter__", "__len__", "__contains__", "copy"}
 
 
 def kindof(lid):
@@ -167,6 +200,22 @@ def finalize(A, rep, tier):
             rep.ok("C10.c", f"C10.c lock order {a} -> {b}: no opposite edge ({len(sites)} site(s))")
     if not edges:
         rep.undecided_note("C10.c", "no nested lock acquisition found")
+    # symmetric deadlock through an argument: a.update(b) holds a's lock while reading b; if reading b takes b's
+    # collection lock, b.update(a) on another thread holds b's lock and waits for a's
+    argreads = sorted({(x[1], x[2]) for x in rep.facts if x[0] == "argread"})
+    readlocks = sorted({(x[1], x[2], x[3]) for x in rep.facts if x[0] == "readlock"})
+    if argreads and readlocks:
+        seen_sites = set()
+        for entry, fn, stmt in readlocks:
+            if (fn, stmt) in seen_sites:
+                continue
+            seen_sites.add((fn, stmt))
+            rep.fail("C10.c", norm_key("C10.c", "read-takes-lock", fn, stmt),
+                     f"read operations acquire a collection lock (`{stmt}` in {fn}, e.g. through {entry}) while mutators read their argument under their own collection lock "
+                     f"(`{argreads[0][1]}` in {argreads[0][0]}): a.update(b) on one thread and b.update(a) on another each hold their own lock and wait for the other's - both block forever",
+                     [f"readers: {', '.join(sorted({r[0] for r in readlocks})[:8])}", f"mutators reading an argument under the lock: {', '.join(sorted({a[0] for a in argreads})[:8])}"], "readers x mutators")
+    elif argreads:
+        rep.ok("C10.c", f"C10.c reads are lock-free, so the {len(argreads)} mutator(s) that read an argument under their own collection lock cannot wait for another collection's lock")
 
 
 def check_table_writes_locked(A, rep):
